@@ -486,6 +486,11 @@ func (w *world) populate() {
 	for i := r.Intn(4); i > 0; i-- {
 		w.source(w.randEdit())
 	}
+	if w.cs.Bulk > 0 {
+		// ... and, where serialised snapshots span several rsync blocks, also in
+		// layout: an early extra entry shifts everything behind it
+		w.source(edit{K: "w", P: fmt.Sprintf("0shift%0*d", 1+r.Intn(40), 7), C: 3})
+	}
 }
 
 func (w *world) doEdit(op opSpec, rec map[string]any) {
@@ -657,6 +662,13 @@ func cancelledContext(pre bool) (context.Context, context.CancelFunc) {
 
 func (w *world) junkTree() *core.Entry {
 	r := w.rng
+	if w.lastL != nil && w.lastL.Content != nil && r.Intn(2) == 0 {
+		// the known content, but somewhere else: same blocks at other offsets
+		return &core.Entry{Kind: core.EntryKind_Directory, Contents: map[string]*core.Entry{
+			"jd": w.lastL.Content.Copy(core.EntryCopyBehaviorDeep),
+			"jf": {Kind: core.EntryKind_File, Digest: bytes.Repeat([]byte{7}, 20)},
+		}}
+	}
 	c := map[string]*core.Entry{}
 	for i := 2 + r.Intn(6); i > 0; i-- {
 		d := make([]byte, 20)
